@@ -80,6 +80,21 @@ def load_classes(repo: Path):
                 if c.__name__ in classes and classes[c.__name__] is not c:
                     raise Refuse(f"two classes named {c.__name__}")
                 classes[c.__name__] = c
+    # classes created at run time by Workspace.create_object_or_group (version > 1.0): a drillhole group is always
+    # instantiated as type("Concatenator" + name, (Concatenator, member), {})
+    ws_src = (repo / "geoh5py/workspace/workspace.py").read_text()
+    site = "member = type('Concatenator' + name, (Concatenator, member), {})"
+    guard = "if member in (DrillholeGroup, IntegratorDrillholeGroup):"
+    flat = ast.unparse(ast.parse(ws_src))
+    if site in flat:
+        if guard not in flat:
+            raise Refuse("Workspace.create_object_or_group: the set of classes wrapped into a Concatenator changed")
+        for nm in ("DrillholeGroup", "IntegratorDrillholeGroup"):
+            dyn = type("Concatenator" + nm, (classes["Concatenator"], classes[nm]), {})
+            dyn.__module__ = "geoh5py.workspace.workspace"
+            classes["Concatenator" + nm] = dyn
+    elif "Concatenator" in flat and "type(" in flat:
+        raise Refuse("Workspace.create_object_or_group: dynamic Concatenator class creation changed shape")
     return classes
 
 
@@ -91,6 +106,11 @@ class Source:
         self.trees = {}
         self.cdefs = {}
         for c in classes.values():
+            if c.__module__ == "geoh5py.workspace.workspace" and c.__name__.startswith("Concatenator") and c.__name__ != "Concatenator":
+                f = (repo / "geoh5py/workspace/workspace.py").resolve()
+                self.trees.setdefault(f, ast.parse(f.read_text()))
+                self.cdefs[c] = (f, ast.ClassDef(name=c.__name__, bases=[], keywords=[], body=[], decorator_list=[], lineno=1))
+                continue
             f = Path(inspect.getsourcefile(c)).resolve()
             if f not in self.trees:
                 self.trees[f] = ast.parse(f.read_text())
@@ -520,7 +540,15 @@ def writer_facts(repo: Path):
                     and isinstance(n.ctx, ast.Load):
                 reads.add(n.value.id + "." + n.attr)
         fp[name] = sorted(reads)
-    return {"dispatch": dispatch, "default": default, "skip_keys": skip, "fingerprint": fp}
+    redirect = []
+    for name in ("write_array_attribute", "write_data_values"):
+        src = ast.unparse(fns[name])
+        if "isinstance(entity, Concatenator)" in src and "entity_handle = entity_handle['Concatenated Data']" in src:
+            redirect.append(name)
+    wd = ast.unparse(fns["write_data_values"])
+    comments_wrap = "isinstance(entity, CommentsData)" in wd and "values = {'Comments': values}" in wd
+    return {"dispatch": dispatch, "default": default, "skip_keys": skip, "fingerprint": fp, "concatenator_redirect": redirect,
+            "comments_wrap": comments_wrap}
 
 
 def branch_routine(body, line):
@@ -776,11 +804,54 @@ def extract(repo: Path):
                 return {attr}
         return None
 
+    concatenator = classes.get("Concatenator")
+    comments = classes.get("CommentsData")
+
+    def getter_ast(c, name):
+        for k in c.__mro__:
+            if name in getattr(k, "__dict__", {}):
+                obj = k.__dict__[name]
+                if isinstance(obj, property) and obj.fget is not None:
+                    owner = classes.get(obj.fget.__qualname__.split(".")[0])
+                    return members.get(owner, {}).get(name, {}).get("get") if owner else None
+                return None
+        return None
+
+    def guards_for(c, labels):
+        """label -> guard field: the writer routine re-reads the attribute through its getter, and that getter fetches
+        the stored value under a key built from another *assignable* attribute (FilenameData.values <- file_name)"""
+        out = {}
+        for l in labels:
+            if wf["dispatch"].get(l, wf["default"]) not in ("write_data_values", "write_array_attribute"):
+                continue
+            g = getter_ast(c, l)
+            if g is None:
+                continue
+            for n in ast.walk(g):
+                if isinstance(n, ast.Assign) and any(self_attr(t) == "_" + l for t in n.targets) and isinstance(n.value, ast.Call):
+                    fn = n.value.func
+                    if isinstance(fn, ast.Attribute) and fn.attr.startswith("fetch_") and ast.unparse(fn.value) == "self.workspace":
+                        keys = [self_attr(a) for a in n.value.args if self_attr(a)]
+                        if any(k in setter_names and k not in OUT_OF_SCOPE for k in keys):
+                            out[l] = "_" + l
+        return out
+
     def routes_for(c, labels):
         out = {}
         amap = getattr(c, "_attribute_map", None)
         for l in labels:
             routine = wf["dispatch"].get(l, wf["default"])
+            if concatenator is not None and issubclass(c, concatenator) and routine in wf["concatenator_redirect"] \
+                    and l not in ("concatenated_attributes", "concatenated_object_ids", "property_group_ids"):
+                # the routine writes every dataset of a Concatenator under its "Concatenated Data" sub-group, where
+                # neither geoh5py's reader nor the format looks for the group's own metadata/options: nothing is routed
+                out[l] = []
+                continue
+            if comments is not None and issubclass(c, comments) and routine == "write_data_values" and l != "values" and wf["comments_wrap"]:
+                # write_data_values wraps whatever it writes for a CommentsData into {"Comments": ...}: a dictionary
+                # attribute (metadata) is not stored in the form a reader returns
+                out[l] = []
+                continue
             if routine == "write_attributes":
                 fs = set()
                 if isinstance(amap, dict):
@@ -871,8 +942,9 @@ def extract(repo: Path):
             "has_on_file": hasattr(c, "on_file"),
             "concatenated": bool(concat),
             "kind": ("data" if issubclass(c, classes["Data"]) else "object" if issubclass(c, classes["ObjectBase"]) else
+                     "concatenator" if concatenator is not None and issubclass(c, concatenator) else
                      "group" if issubclass(c, classes["Group"]) else "type" if issubclass(c, EntityType) else "other"),
-            "resolve": res, "routes": routes, "pg_route": pg_route,
+            "resolve": res, "routes": routes, "guards": guards_for(c, sorted(labels)), "pg_route": pg_route,
             "attrs": attrs, "watch": sorted(watch),
             "attribute_map": {k: v for k, v in (getattr(c, "_attribute_map", None) or {}).items()},
         })
